@@ -55,6 +55,10 @@ def payload_check(chk, quick):
             body = rng.choice(NASTY)
             mode = rng.choice(["plain", "plain", "group", "whole", "nomatch"])
             extra = {"name": "b%d" % bi, "data-x": rng.choice(["1", "two words", "ü"])}
+            # attributes whose value is empty (quoted empty, or a bare name) are attributes too
+            if bi % 2 == 0:
+                extra["owner"] = ""
+            bare = ["flag-%d" % bi] if bi % 3 == 0 else []
             pattern = None
             want = body.strip()
             if mode == "group":
@@ -78,7 +82,9 @@ def payload_check(chk, quick):
             lines = files.setdefault(fname, [])
             tagline = len(lines) + 1
             quote = lambda v: ("'%s'" % v) if '"' in v else ('"%s"' % v)
-            lines.append("# <block %s>" % " ".join("%s=%s" % (k, quote(v)) for k, v in attrs.items()))
+            lines.append("# <block %s>" % " ".join(["%s=%s" % (k, quote(v)) for k, v in attrs.items()] + bare))
+            for b_ in bare:
+                attrs[b_] = ""
             lines.extend(body.split("\n"))
             lines.append("# </block>")
             lines.append("filler = %d" % bi)
@@ -104,8 +110,12 @@ def payload_check(chk, quick):
             for d in ds:
                 if d["code"] != "check-lua":
                     continue
-                msg = d["data"]["lua_error"]
-                if not (msg.startswith("\x01") and msg.endswith("\x03")):
+                # the returned string is carried by the diagnostic (its data, or quoted in its message)
+                msg = next((v for v in list((d.get("data") or {}).values()) if isinstance(v, str) and v.startswith("\x01")), None)
+                if msg is None and "\x01" in d.get("message", "") and "\x03" in d.get("message", ""):
+                    mm = d["message"]
+                    msg = mm[mm.index("\x01"):mm.rindex("\x03") + 1]
+                if msg is None or not (msg.startswith("\x01") and msg.endswith("\x03")):
                     chk.violation("diagnostic does not carry the returned string verbatim", detail)
                     continue
                 p = msg[1:-1].split("\x02")
